@@ -11,7 +11,8 @@ ASSUME = [
 ]
 # violation keys of the replay driver that express C01
 KEYS = {"bytes-wrong", "bytes-missing", "session-died", "write-refused", "open-refused", "read-blocked",
-        "eof-early", "call-blocked", "accept-failed", "trace-rejected"}
+        "eof-early", "call-blocked", "accept-failed", "trace-rejected",
+        "connector:early-return", "connector:stuck", "connector:no-pause", "connector:signature", "connector:dead-session"}
 
 
 RULE = ("behaviours of MuxGen (API calls x delivery orders over gated connections; exhaustive BFS for 2 conns/1 stream/2 units "
@@ -49,12 +50,24 @@ def addconn_race(ctx):
     res = lib.run_go(ctx, "multiplex", "TestVerifC01AddConnRace", timeout=600)
     lib.collect_go(ctx, res)
     ctx.log("addconn race: %d rounds, %d violations" % (res["evaluations"], len(res.get("violations", []))))
+    # client.MakeSession's retry loop (spec/ClientSession.tla): every script of failed dials / failed handshakes, in a bubble
+    beh = []
+    for mode, br in (("direct", "chrome"), ("direct", "firefox"), ("direct", "safari")):
+        g = lib.require_ok(lib.run_tlc(ctx, "ClientSessionGen", "ClientSessionGen.cfg", {"MAXFAIL": 3 if ctx.quick() else 4, "MODE": mode, "BROWSER": br},
+                                       workers=2, tag="connector_%s" % br), "ClientSessionGen")
+        beh += g.behaviours
+    import os
+    inp = lib.write_lines(os.path.join(ctx.work, "connector.ndjson"), beh)
+    con = lib.run_go(ctx, "server", "TestVerifC01Connector", env={"VERIF_IN": inp}, timeout=900, tag="connector")
+    lib.collect_go(ctx, con)
+    if con["stats"].get("diverged"):
+        raise lib.Inconclusive("connector scripts could not be followed: %s" % con.get("notes"))
+    ctx.log("connector: %d scripts replayed, %d violations" % (len(beh), len(con.get("violations", []))))
     # end to end: real RouteTCP + MakeSession against real dispatchConnection/serveSession over a pumped, gated network
     rig = lib.run_go(ctx, "server", "TestVerifC01Rig", timeout=1500, tag="rig")
     lib.collect_go(ctx, rig)
     if rig["stats"].get("timeouts") and not rig.get("violations"):
         raise lib.Inconclusive("end-to-end rig: application connections did not finish: %s" % rig.get("notes"))
-    import os
     tpath = os.path.join(rig["_out_dir"], "trace.ndjson")
     lines = open(tpath).read().splitlines()
     v = lib.run_tlc(ctx, "EchoTrace", "EchoTrace.cfg", workers=1, env={"VERIF_TRACE": tpath}, expect_violation=True, tag="echotrace", timeout=900)
@@ -63,8 +76,10 @@ def addconn_race(ctx):
         ctx.violations.append({"key": "trace-rejected", "what": "end-to-end application trace is not a behaviour of the per-stream FIFO: event %s (line %d)"
                                % (lines[ln - 1] if ln <= len(lines) else "?", ln), "replay": {"trace_tail": lines[max(0, ln - 10):ln]}})
     ctx.log("rig: %d scenarios, %d bytes echoed, %d events, trace accepted=%s" % (rig["evaluations"], rig["stats"].get("bytes_echoed", 0), len(lines), v.ok))
-    return {"evaluations": res["evaluations"] + rig["evaluations"], "distinct_nontrivial": res["distinct_nontrivial"] + rig["distinct_nontrivial"],
-            "samples": res["samples"][:1] + rig["samples"][:1], "traces": res["evaluations"] + (rig["evaluations"] if v.ok else 0),
+    return {"evaluations": res["evaluations"] + rig["evaluations"] + con["evaluations"],
+            "distinct_nontrivial": res["distinct_nontrivial"] + rig["distinct_nontrivial"] + con["distinct_nontrivial"],
+            "samples": res["samples"][:1] + rig["samples"][:1] + con["samples"][:1],
+            "traces": res["evaluations"] + (rig["evaluations"] if v.ok else 0) + len(beh), "connector_scripts": len(beh),
             "addconn_race_stats": res["stats"], "rig_stats": {k: x for k, x in rig["stats"].items() if not k.startswith("violations")}}
 
 
